@@ -11,33 +11,68 @@
        - the decompression helpers answer arbitrary input with an error or with
          bytes; compress-then-decompress is the identity.  A panic is an event
          of its own, which no action admits.
+     Put(d, headers): the same bytes may enter through a raw HTTP request to the
+       volume server (PUT body or a hand-made multipart form; Content-Type set
+       or not, Content-Encoding: gzip with a gzipped body, a file name in the
+       part / nowhere / in the URL / a form field in front of the file part).
+       An answer 2xx obliges the fetches exactly like a reported client upload.
+       A request whose Content-MD5 does not fit the data must be refused and
+       must leave nothing readable under that file id.
+     The fetch paths include the ones the S3 copy handlers, the replication
+     source and `weed download` use (util.ReadUrlAsReaderCloser with and without
+     a range header, util.DownloadFile, util.Head): full content = d, a range =
+     the matching slice, the announced length = |d|, and the file name handed
+     back by DownloadFile is the name given when that name needs no quoting.
    Silent: whether an upload succeeds; what a fetch returns for an upload
    that failed, for input wrongly declared compressed, for a stored chunk that
-   is not a gzip stream although flagged as one (only: no panic).
+   is not a gzip stream although flagged as one (only: no panic); which digest
+   a Content-MD5 of a compressed body refers to (the body as sent or the data);
+   file names that need quoting in a Content-Disposition header.
 
    The second half of the module is the decision table of the real pipeline
-   (doUploadData's compression/encryption decisions, the volume server's
-   Accept-Encoding / Range behaviour, ReadUrlAsStream / readEncryptedUrl) over
-   abstract byte strings: TLC enumerates every row (the generator of the
+   (doUploadData's compression/encryption decisions, needle.ParseUpload on raw
+   requests, the volume server's Accept-Encoding / Range behaviour,
+   ReadUrlAsStream / readEncryptedUrl / ReadUrlAsReaderCloser / DownloadFile /
+   Head) over abstract byte strings: TLC enumerates every row (the generator of the
    driver's scripts) and checks that the composition is the identity
    (PipelineTransparent). *)
 EXTENDS Integers, Sequences, FiniteSets, TLC, Json
 
 (* ------------------------------------------------------------------ layer A *)
-(* up[id] = [ok, len, valid]: upload id was reported successful, the original data has len bytes,
-   valid = the input was what it was declared to be *)
-NoUpload == [ok |-> FALSE, len |-> 0, valid |-> FALSE]
-UploadRec(res, len, valid) == [ok |-> res = "ok", len |-> len, valid |-> valid]
+(* up[id] = [ok, len, valid, void, named]: upload id was reported successful, the original data has len bytes,
+   valid = the input was what it was declared to be, void = the request had to be refused *)
+NoUpload == [ok |-> FALSE, len |-> 0, valid |-> FALSE, void |-> FALSE, named |-> FALSE]
+(* named = a file name that needs no quoting was given and stored with the data *)
+PlainName(ext) == ext \in {"txt", "jpg", "gz", "json", "dottxt"}
+UploadRec(res, len, valid, named) == [ok |-> res = "ok", len |-> len, valid |-> valid, void |-> FALSE, named |-> res = "ok" /\ named]
 
+(* a raw HTTP upload: status = the volume server's answer.  md5: which Content-MD5 header travelled with it
+   ("none", "right" = of d, "wrong" = of other bytes, "wire" = of the body as sent) *)
+Accepted(status) == status \in 200..299
+PutOK(md5, status) == md5 = "wrong" => ~Accepted(status)
+PutRec(md5, status, len, valid, named) ==
+  [ok |-> Accepted(status), len |-> len, valid |-> valid, void |-> md5 = "wrong", named |-> Accepted(status) /\ named]
+
+(* the paths that read through a chunk list (filer.StreamContent, filer.ChunkReadAt) never ask a server for a
+   chunk of size 0: there is nothing that could fail *)
+ChunkVias == {"streamcontent", "readerat"}
 (* res: "ok" | "err"; seg = [src, off, len]: which bytes came back, as identified by the driver
    (src = "d": a segment of the original data) *)
-FetchOK(u, full, off, size, res, seg) ==
-  (u.ok /\ u.valid) =>
+FetchOK(u, via, full, off, size, res, seg) ==
+  /\ (u.void /\ ~(u.len = 0 /\ via \in ChunkVias)) => res = "err"            \* a refused upload left nothing readable
+  /\ (u.ok /\ u.valid) =>
      /\ res = "ok"
      /\ LET want == IF full THEN u.len ELSE size
             woff == IF full THEN 0 ELSE off
         IN IF want = 0 THEN seg.len = 0
            ELSE seg.src = "d" /\ seg.off = woff /\ seg.len = want
+(* HEAD: the announced length is the length of the data unless the answer declares a content coding *)
+HeadOK(u, res, clen, cenc) ==
+  /\ u.void => res = "err"
+  /\ (u.ok /\ u.valid) => (res = "ok" /\ (cenc = "" => clen = u.len))
+(* util.DownloadFile hands the stored file name back: fname "same" | "none" | "other" (a needle without data keeps
+   no name: nothing is said about the name of an empty file) *)
+NameOK(u, res, fname) == (u.ok /\ u.valid /\ u.named /\ u.len > 0 /\ res = "ok") => fname = "same"
 
 (* decompression helpers: res "bytes" | "err"; case "valid" = an uncorrupted stream; round trips of arbitrary
    data through compress + decompress give the data back; isgz = the input starts with the gzip magic *)
@@ -49,13 +84,30 @@ DecompOK(fn, case, isgz, res, same) ==
   /\ (fn = "MaybeRoundTrip" /\ ~isgz) => (res = "bytes" /\ same)
 
 (* ------------------------------------------------------------------ the pipeline (decision table) *)
-CONSTANTS Exts, Mimes, Sizes, Kinds, Fns
-Rows == [ext : Exts, mime : Mimes, size : Sizes, kind : Kinds, cipher : BOOLEAN, gzin : BOOLEAN, fn : Fns]
+CONSTANTS Exts, Mimes, Sizes, Kinds, Fns,                 \* rows of the client upload functions
+          RawExts, RawMimes, RawSizes, RawKinds, Md5s, NameAts   \* rows of raw HTTP requests (fn Put | Multipart)
+ClientRows == [ext : Exts, mime : Mimes, size : Sizes, kind : Kinds, cipher : BOOLEAN, gzin : BOOLEAN,
+               fn : Fns \cap {"UploadData", "Upload"}, md5 : {"none"}, nameat : {"part"}]
+(* a raw request: gzin = the body (the file part) is gzipped and says so in Content-Encoding; nameat = where the file
+   name travels: nowhere, in the part's Content-Disposition, in the URL, or in a second part behind a form field;
+   a PUT has no parts; the digest of the body as sent only differs from the digest of the data for a gzipped body *)
+IsRaw(row) == row.fn \in {"Put", "Multipart"}
+WellFormedRaw(r) ==
+  /\ (r.nameat = "none") = (r.ext = "none")
+  /\ r.fn = "Put" => r.nameat \in {"none", "url"}
+  /\ r.md5 = "wire" => r.gzin
+RawRows == {r \in [ext : RawExts, mime : RawMimes, size : RawSizes, kind : RawKinds, cipher : {FALSE}, gzin : BOOLEAN,
+                   fn : Fns \cap {"Put", "Multipart"}, md5 : Md5s, nameat : NameAts] : WellFormedRaw(r)}
+Rows == ClientRows \cup RawRows
 (* declared-compressed input is only meaningful when it is a gzip stream: the generator wraps text/rand/zeros
    payloads; gzprefix / gzhdr payloads declared compressed are the malformed rows *)
 Malformed(row) == row.gzin /\ row.kind \in {"gzprefix", "gzhdr"}
-Big(size) == size \in {"s16k1", "s70k", "s300k"}
+Big(size) == size \in {"s16k1", "s70k", "s300k", "s1m", "s1m1", "s1m2"}
 Empty(size) == size = "s0"
+(* the volume server of the executions takes uploads of at most 1 MiB (size s1m); what counts are the bytes as sent:
+   compressible data shrinks below the limit, the gzip form of 1 MiB of random bytes is longer than they are *)
+OverLimit(row) == \/ row.size \in {"s1m1", "s1m2"} /\ ~(row.gzin /\ row.kind \in {"text", "html", "zeros"})
+                  \/ row.size = "s1m" /\ row.gzin /\ row.kind = "rand"
 
 (* http.DetectContentType on the first bytes, reduced to what the decisions need *)
 Sniff(row) ==
@@ -90,9 +142,25 @@ Enc(x) == <<"enc">> \o x
 UnGz(x) == IF x # <<>> /\ Head(x) = "gz" THEN Tail(x) ELSE <<"garbage">>
 Dec(x) == IF x # <<>> /\ Head(x) = "enc" THEN Tail(x) ELSE <<"garbage">>
 
-(* doUploadData: what is stored, the needle's compressed flag, and the UploadResult the caller keeps *)
+(* needle.ParseUpload on a raw request.  parsePut: the request's Content-Encoding makes the needle compressed, the
+   body is the data whatever its Content-Type; parseMultipart: the headers of the part the data is taken from.
+   The digest the server compares a Content-MD5 with is the one of the decompressed data when the needle is
+   compressed and decompresses, of the data as sent otherwise. *)
+RawFlag(row) == row.gzin
+RawRefused(row) ==
+  \/ OverLimit(row)
+  \/ row.md5 = "wrong"
+  \/ (row.md5 = "wire" /\ RawFlag(row) /\ ~Malformed(row))
+
+(* doUploadData: what is stored, the needle's compressed flag, and the UploadResult the caller keeps;
+   a raw request: what the parser made of it; nothing for a refused request *)
+Nothing == [bytes |-> <<"nothing">>, flag |-> FALSE, rgzip |-> FALSE, key |-> FALSE]
 Stored(row) ==
-  IF row.cipher THEN [bytes |-> Enc(D), flag |-> FALSE, rgzip |-> FALSE, key |-> TRUE]
+  IF IsRaw(row)
+    THEN IF RawRefused(row) THEN Nothing
+         ELSE IF RawFlag(row) THEN [bytes |-> Gz(D), flag |-> TRUE, rgzip |-> TRUE, key |-> FALSE]
+         ELSE [bytes |-> D, flag |-> FALSE, rgzip |-> FALSE, key |-> FALSE]
+  ELSE IF row.cipher THEN [bytes |-> Enc(D), flag |-> FALSE, rgzip |-> FALSE, key |-> TRUE]
   ELSE IF row.gzin \/ ShouldGzip(row) THEN [bytes |-> Gz(D), flag |-> TRUE, rgzip |-> TRUE, key |-> FALSE]
   ELSE [bytes |-> D, flag |-> FALSE, rgzip |-> FALSE, key |-> FALSE]
 
@@ -115,14 +183,29 @@ Fetched(row, full) ==
          IN IF st.rgzip THEN UnGz(clear) ELSE clear
     ELSE LET rsp == Serve(st, full)
          IN IF rsp.cenc THEN UnGz(rsp.body) ELSE rsp.body
+(* the fetch paths without a key.  util.ReadUrlAsReaderCloser: no range header -> Accept-Encoding: gzip and the gzip
+   coding undone, a range header -> the range of what the server sends; util.DownloadFile: a plain client.Get - the
+   HTTP transport asks for gzip by itself and undoes it; util.Head: nothing asked for, only the length announced *)
+RawVias == {"rcloser", "download", "head"}
+FetchedVia(row, via, full) ==
+  LET st == Stored(row)
+      rsp == CASE via = "rcloser" -> Serve(st, full)
+               [] via = "download" -> Serve(st, TRUE)
+               [] OTHER -> Serve(st, FALSE)
+  IN IF rsp.cenc THEN UnGz(rsp.body) ELSE rsp.body
 
 VARIABLES row, hist
 Init == row \in Rows /\ hist = <<row>>
 Next == UNCHANGED <<row, hist>>
 Spec == Init /\ [][Next]_<<row, hist>>
 
-PipelineTransparent == ~Malformed(row) => (Fetched(row, TRUE) = D /\ Fetched(row, FALSE) = D)
+Kept(r) == ~Malformed(r) /\ ~(IsRaw(r) /\ RawRefused(r))
+PipelineTransparent ==
+  Kept(row) => /\ Fetched(row, TRUE) = D /\ Fetched(row, FALSE) = D
+               /\ ~Stored(row).key => \A via \in RawVias, full \in BOOLEAN : FetchedVia(row, via, full) = D
 (* compression never reaches an encrypted chunk twice, and a compressed flag implies gzip bytes *)
 FlagMeansGz == LET st == Stored(row) IN st.flag => (st.bytes # <<>> /\ Head(st.bytes) = "gz")
+(* a digest that does not fit is refused, and a refused request stores nothing *)
+WrongMd5Refused == (IsRaw(row) /\ row.md5 = "wrong") => (RawRefused(row) /\ Stored(row) = Nothing)
 Emit == PrintT(<<"W", ToJson(hist)>>)
 =============================================================================
